@@ -42,6 +42,9 @@ F(d) == IF d = 0 THEN {Atom(a) : a \in Atoms}
                   \cup {[w |-> <<"\\vma">> \o Grp(s).w, e |-> s.e \o <<"^", "{", "2", "}">>] : s \in S}
                   \cup {Cat(s, Cat([w |-> <<"\\mbox", "{", "\\textit", "{", "i", "f", "}", "}">>, e |-> <<"\\mbox", "{", "\\textit", "{", "i", "f", "}", "}">>], t))
                           : s \in B, t \in B}                                    \* a text box directly inside a text box
+                  \cup {[w |-> <<"\\mbox", "{", "i", "f", " ", "\\textit", "{", "a", "}", " ", "$">> \o s.w \o <<"$", "}">>,
+                         e |-> <<"\\mbox", "{", "i", "f", " ", "\\textit", "{", "a", "}", " ", "$">> \o s.e \o <<"$", "}">>] : s \in B}
+                                                                                  \* ... followed, still inside the outer box, by inner mathematics
                   \cup {Cat(Grp(Cat(s, Atom(<<"-", "-">>))), t) : s \in B, t \in S}   \* a bare group with ligature-like text
                   \cup {Cat(s, t) : s \in B, t \in S}
 
